@@ -503,7 +503,24 @@ func (ec *evalCtx) callSpec(x *spec.Call) Val {
 		}
 		elem := v.GoT.Underlying().(*types.Pointer).Elem()
 		return fc.loadLoc(ec.cur, v.Loc, elem, smt.True, "spec")
+	case "derefref":
+		// derefref(p): the reference stored in the cell an interface-boxed pointer p points to
+		v := ec.eval(x.Args[0])
+		if v.Loc == nil && v.T != nil {
+			if bi, ok := fc.boxes[v.T.String()]; ok && bi.v.Loc != nil {
+				v = bi.v
+			}
+		}
+		if v.Loc == nil || v.Loc.Kind != LCell {
+			return Val{T: fc.S.Fresh("derefref", smt.Int)}
+		}
+		return Val{T: fc.readKey(ec.cur, v.Loc.Key, v.Loc.Base, smt.Int)}
 	case "fresh":
+		if fv := ec.eval(x.Args[0]); fv.T != nil {
+			if l, ok := fc.condFresh[fv.T.Op]; ok {
+				return Val{T: smt.Eq(fv.T, l)}
+			}
+		}
 		return Val{T: smt.Lt(ec.scalar(ec.eval(x.Args[0]), x), smt.IntLit(0))}
 	case "band", "bor", "bxor":
 		a, b := ec.eval(x.Args[0]).T, ec.eval(x.Args[1]).T
